@@ -548,6 +548,24 @@ pub fn check(case: &Case, st: &mut Stats) -> CheckResult {
   Ok(())
 }
 
+fn stage_opts() -> SrcOpts {
+  let mut opts = crate::c05::small_opts().langs(&[
+    SupportLang::JavaScript,
+    SupportLang::TypeScript,
+    SupportLang::Python,
+    SupportLang::Rust,
+  ]);
+  opts.synth_weight = 7;
+  opts
+}
+
+/// the same stage, driven by bytes (coverage-guided tier)
+pub fn erased() -> crate::fuzz::Erased {
+  let corpus: &'static Corpus = Box::leak(Box::new(Corpus::load()));
+  let opts: &'static SrcOpts = Box::leak(Box::new(stage_opts()));
+  crate::fuzz::Erased::generic("C04", "env", move || strategy(opts), move |c, st| interpret(corpus, opts, c, st), check)
+}
+
 pub fn run(cfg: &RunCfg) -> i32 {
   let mut report = Report::new(
     cfg,
@@ -562,13 +580,7 @@ pub fn run(cfg: &RunCfg) -> i32 {
   }
   let corpus = Corpus::load();
   crate::replay_known::<Case>(&mut report, &known, check);
-  let mut opts = crate::c05::small_opts().langs(&[
-    SupportLang::JavaScript,
-    SupportLang::TypeScript,
-    SupportLang::Python,
-    SupportLang::Rust,
-  ]);
-  opts.synth_weight = 7;
+  let opts = stage_opts();
   let total = cfg.budget(12_000, 300_000);
   let o = drive(cfg, "env", total, &known, || strategy(&opts), |c, st| interpret(&corpus, &opts, c, st), check);
   report.absorb("env", o);
@@ -576,5 +588,6 @@ pub fn run(cfg: &RunCfg) -> i32 {
   let o = drive(cfg, "scenarios", total, &known, || scenario_strategy(&opts), |c, st| interpret_scenario(c, st), check);
   report.absorb("scenarios", o);
   report.floor("failed_attempt_had_bindings", 0.15, "evaluations");
+  crate::fuzz::stage(cfg, &mut report, &known, 20000);
   report.finish()
 }
